@@ -437,6 +437,9 @@ func (e *env) hsCheck(label string, key, in16, c, want []byte) {
 	copy(k[:], key)
 	copy(in[:], in16)
 	copy(cc[:], c)
+	for i := range o {
+		o[i] = byte(0xA5 + i) // the caller's output array has been used before
+	}
 	salsa.HSalsa20(&o, &in, &k, &cc)
 	// out aliasing k is how box.Precompute calls it
 	k2 := k
@@ -450,6 +453,9 @@ func (e *env) hsCheck(label string, key, in16, c, want []byte) {
 func (e *env) c208Check(label string, in, want []byte) {
 	var i, o [64]byte
 	copy(i[:], in)
+	for j := range o {
+		o[j] = byte(0xA5 + j) // the caller's output array has been used before
+	}
 	salsa.Core208(&o, &i)
 	same := i
 	salsa.Core208(&same, &same)
